@@ -123,8 +123,10 @@ def _classify(run, pid, h, txt, rc, dt):
     role = h.get('role', 'proof')
     m = re.search(r'VERIFICATION:- (\w+)', txt)
     v = m.group(1) if m else ('TIMEOUT' if rc == -9 else 'ERROR')
-    if 'Status: ERROR' in txt or 'out of memory' in txt.lower() or 'std::bad_alloc' in txt:
+    if 'Status: ERROR' in txt or 'out of memory' in txt.lower() or 'std::bad_alloc' in txt or re.search(r'CBMC failed with status|CBMC crashed|Killed', txt):
         v = 'ERROR'
+    if rc == -9:
+        v = 'TIMEOUT'       # killed by this driver: whatever the tool printed while dying is not a verdict
     if 'unwinding assertion' in txt and re.search(r'unwinding assertion[^\n]*\n[^\n]*\n?', txt) and re.search(r'Failed Checks: unwinding assertion', txt):
         v = 'UNWIND'
     failed = re.findall(r'Failed Checks: ([^\n]*)', txt)
